@@ -20,8 +20,5 @@ META = {
 
 
 def run(ctx):
-    for r in (dt.r02_1, dt.r02_2, dt.r02_3, dt.r02_4, dt.r02_5, dt.r02_6, dt.r02_7, dt.r02_8):
-        try:
-            r(ctx)
-        except shared.AnchorMissing:
-            pass
+    import engine
+    engine.run_rules(ctx, [dt.r02_1, dt.r02_2, dt.r02_3, dt.r02_4, dt.r02_5, dt.r02_6, dt.r02_7, dt.r02_8])
